@@ -128,6 +128,14 @@ def r19_2(ctx, rule='R19.2'):
     q.need(wp, 'Popen.poll does not call os.waitpid')
     n0 = wp[0][0]
     st = n0.ast
+    if isinstance(st, ast.Assign) and isinstance(st.targets[0], ast.Name):
+        # res = os.waitpid(...); ...; pid, sts = res
+        later = [x for x in ast.walk(fi.node) if isinstance(x, ast.Assign) and isinstance(x.targets[0], ast.Tuple)
+                 and isinstance(x.value, ast.Name) and x.value.id == st.targets[0].id and len(x.targets[0].elts) == 2]
+        others = [dn for (dn, t, v) in q.assigns(fi, st.targets[0].id)
+                  if dn.ast is not st and not (isinstance(v, ast.Constant) and v.value is None)]
+        q.need(len(later) == 1 and not others, 'waitpid result not unpacked')
+        st = later[0]
     q.need(isinstance(st, ast.Assign) and isinstance(st.targets[0], ast.Tuple), 'waitpid result not unpacked')
     pidv, stsv = [ast.unparse(e) for e in st.targets[0].elts]
     ok = ast.unparse(wp[0][1].args[0]) == 'self.pid'
